@@ -506,6 +506,8 @@ def py_shape_ok(post, merge):
             if a in src and src[a].op == 'm':
                 continue
         if n.op == 'c' and all(len(w) == 1 for w in n.args):
+            if merge and isinstance(n.dests[0], pyrtl.Output):
+                continue
             us = users.get(n.dests[0], [])
             if us and all(u.op in 'm@' or (merge and u.op == 'w' and isinstance(u.dests[0], pyrtl.Output))
                           for u in us):
